@@ -150,6 +150,11 @@ func c01Templates(r *Rand) []c01Case {
 	add("collector-call", "A:\n    Ep:\n        B <- Q\n    .. * <- *:\n        B <- Q [~tag]\n        C <- Zed [~tag]\n")
 	add("mixin-missing", "A:\n    -|> Nowhere\n    Ep:\n        ...\n")
 	add("mixin-cycle", "A:\n    -|> B\nB:\n    -|> A\n")
+	add("mixin-self", "A:\n    -|> A\n    !type T:\n        x <: int\n")
+	// a cycle of mixins reached from an application that is not on it; a three-cycle; a diamond onto a cycle
+	add("mixin-cycle-reached-from-outside", "Shop:\n    -|> Audited\n    !type Order:\n        x <: int\nAudited:\n    -|> Timestamped\n    !type AuditRecord:\n        x <: int\nTimestamped:\n    -|> Audited\n    !type Stamp:\n        x <: int\n")
+	add("mixin-three-cycle", "A:\n    -|> B\n    !type TA:\n        x <: int\nB:\n    -|> C\n    !type TB:\n        x <: int\nC:\n    -|> A\n    !type TC:\n        x <: int\nD:\n    -|> A\n    -|> C\n")
+	add("mixin-diamond-onto-cycle", "Top:\n    -|> L\n    -|> R\nL:\n    -|> X\nR:\n    -|> X\nX:\n    -|> Y\n    !view V(a <: int) -> int:\n        a -> (:\n            out = a\n        )\nY:\n    -|> X\n    !type TY:\n        x <: int\n")
 	add("sub-missing", "A:\n    Nowhere -> Ev:\n        ...\n")
 	add("call-missing", "A:\n    Ep:\n        Nowhere <- Ep\n        . <- Nope\n")
 	add("self-call", "A:\n    Ep:\n        . <- Ep\n")
